@@ -2655,10 +2655,14 @@ func (pid *PID) setBehaviorStacked(behavior Behavior) {
 }
 
 // unsetBehaviorStacked sets the actor's behavior to the next behavior
-// prior to setBehaviorStacked is called
+// prior to setBehaviorStacked is called. It is a no-op when nothing is
+// stacked: popping the base behavior would leave the actor without any
+// handler and every later message would be dropped silently.
 func (pid *PID) unsetBehaviorStacked() {
 	pid.fieldsLocker.Lock()
-	pid.behaviorStack.Pop()
+	if pid.behaviorStack.Len() > 1 {
+		pid.behaviorStack.Pop()
+	}
 	pid.fieldsLocker.Unlock()
 }
 
